@@ -158,6 +158,15 @@ func TestC16(t *testing.T) {
 		}
 		// (the directory's own name is nobody's business: percent signs, spaces, colons)
 		target := filepath.Join(dir, rapid.SampledFrom([]string{"target", "target", "target", "100% Orange Juice", "50%", "1:x y", "a#b?c"}).Draw(rt, "targetname"))
+		// ... nor is the way its path is spelled (the string is handed over as it is)
+		switch rapid.IntRange(0, 6).Draw(rt, "targetspelling") {
+		case 0:
+			target = dir + "/./" + filepath.Base(target)
+		case 1:
+			target = dir + "//" + filepath.Base(target)
+		case 2:
+			target = target + "/"
+		}
 		Must(damaged.Materialize(target), "materialize damaged")
 		countFaults(applied)
 		zipPath := filepath.Join(dir, "build.zip")
